@@ -1,5 +1,9 @@
 """C04 - Recording is transparent to the recorded service (DESIGN.md section 6, C04)."""
+import random
+
 from harness.props.recorder_common import RecorderProp, op_runs, records, ALL_OPTS
+from harness import threads_c04 as T
+from harness import sched as S
 
 
 class C04(RecorderProp):
@@ -8,11 +12,108 @@ class C04(RecorderProp):
             'data handler raises, unserialisable value, extractor raises / returns junk, save raises), discard / force from '
             'the operation and from intercepted bodies, nested interceptions, interrupts, all sampling parameters, recording '
             'enabled / disabled / class skipped, on memory / file / S3 cassettes; each run is executed decorated and as an '
-            'undecorated twin; non-trivial = at least one run with an intercepted call; distinct = distinct canonical case')
+            'undecorated twin; plus worker-thread scenarios (1-2 workers making intercepted calls while the main thread returns / '
+            'discards / joins) under the controlled scheduler: every schedule with <= 2 pre-emptions at line granularity inside '
+            'tape_recorder.py (bounded by a run budget) and random schedules; non-trivial = at least one run with an intercepted '
+            'call; distinct = distinct canonical case')
     OPTS = dict(ALL_OPTS, play_ratio=0.1, cassettes=['memory', 'memory', 'file', 's3'], enabled_ratio=0.8)
     N = {'quick': 500, 'thorough': 10000}
 
+    THREAD_SCENARIOS = {'quick': 6, 'thorough': 40}
+    THREAD_PREEMPTIONS = {'quick': 2, 'thorough': 2}
+    THREAD_MAX_RUNS = {'quick': 700, 'thorough': 6000}
+    THREAD_RANDOM = {'quick': 60, 'thorough': 600}
+
+    # -- interceptions in flight on worker threads (controlled scheduler, line granularity) ---------------------------
+    def generate(self, rng, tier):
+        cases = super(C04, self).generate(rng, tier)
+        for i in range(self.THREAD_SCENARIOS[tier]):
+            base = T.gen_base(rng)
+            # every schedule with at most k pre-emptions (bounded by max_runs), explored inside run_impl
+            cases.append(dict(base, explore=self.THREAD_PREEMPTIONS[tier], max_runs=self.THREAD_MAX_RUNS[tier] // self.THREAD_SCENARIOS[tier] + 50))
+            for _ in range(self.THREAD_RANDOM[tier] // self.THREAD_SCENARIOS[tier]):
+                cases.append(dict(base, rand=rng.randrange(10 ** 9)))
+        return cases
+
+    def run_impl(self, case):
+        if case.get('kind') != 'threads':
+            return super(C04, self).run_impl(case)
+        want = T.expected(case)
+        if case.get('explore') is None:
+            r = T.run_threads_case(case)
+            r['_explored'] = 1
+            r['_bad_schedule'] = None if (r['results'] == want and r['main'] == [['ret', 'done']] and r['outcome'] == 'finished') else r['_choices']
+            return r
+
+        def batch(prefixes):
+            return [T.run_threads_case(dict(case, schedule=p, explore=None)) for p in prefixes]
+        explored, first_bad, last = 0, None, None
+        for prefix, cost, res in S.explore(lambda ps: [dict(x, decisions=x['_decisions']) for x in batch(ps)], case['explore'],
+                                           max_runs=case.get('max_runs')):
+            if res is None:
+                break
+            explored += 1
+            last = res
+            if res['results'] != want or res['main'] != [['ret', 'done']] or res['outcome'] != 'finished':
+                first_bad = res
+                first_bad['_bad_schedule'] = res['_choices']
+                break
+        out = first_bad or last
+        out = {k: v for k, v in out.items() if k != 'decisions'}
+        out['_explored'] = explored
+        out.setdefault('_bad_schedule', None)
+        return out
+
+    def model_requests(self, case):
+        if case.get('kind') != 'threads':
+            return super(C04, self).model_requests(case)
+        rnd = random.Random(repr(sorted(case.items(), key=lambda kv: kv[0])))
+        n = len(case['workers'])
+        return [{'m': 'c04.threads', 'main': case['main'], 'workers': case['workers'],
+                 'schedule': [rnd.randrange(n + 1) for _ in range(40)]}]
+
+    def model_transcript(self, case, answers):
+        if case.get('kind') != 'threads':
+            return super(C04, self).model_transcript(case, answers)
+        a = answers[0]
+        if 'error' in a:
+            return {'results': 'model raised ' + a['error']}
+        return {'results': a['results'], 'main': [['ret', 'done']], 'outcome': 'finished'}
+
+    def impl_view(self, case, impl):
+        if case.get('kind') != 'threads':
+            return super(C04, self).impl_view(case, impl)
+        return {'results': [[[k, v[1] if k == 'ret' else v] for k, v in w] for w in impl['results']], 'main': impl['main'],
+                'outcome': impl['outcome']}
+
+    def sample_repr(self, case):
+        if case.get('kind') == 'threads':
+            return case
+        return super(C04, self).sample_repr(case)
+
+    def features(self, case, impl):
+        if case.get('kind') != 'threads':
+            return super(C04, self).features(case, impl)
+        return ['threads', 'threads:main=' + case['main'], 'threads:schedules-explored=%d' % impl.get('_explored', 1)] + \
+               (['threads:exhaustive<=%d-preemptions' % case['explore']] if case.get('explore') is not None else ['threads:random-schedule'])
+
+    def shrink(self, case):
+        if case.get('kind') != 'threads':
+            return super(C04, self).shrink(case)
+        return []
+
     def oracle(self, case, impl):
+        if case.get('kind') == 'threads':
+            want = T.expected(case)
+            fails = []
+            if impl['outcome'] != 'finished':
+                fails.append('threads: the run ended in %s under schedule %r' % (impl['outcome'], impl['_choices']))
+            if impl['results'] != want:
+                fails.append('threads (main: %s): worker calls were handed %r, their bodies produce %r; schedule (choices at the '
+                             'decision points) %r' % (case['main'], impl['results'], want, impl.get('_bad_schedule') or impl['_choices']))
+            if impl['main'] != [['ret', 'done']]:
+                fails.append('threads: the operation ended %r instead of returning' % (impl['main'],))
+            return fails
         fails = []
         for i, run, r in op_runs(case, impl):
             if r['end'] != r['twinEnd']:
@@ -31,6 +132,8 @@ class C04(RecorderProp):
         return None
 
     def nontrivial(self, case, impl):
+        if case.get('kind') == 'threads':
+            return True
         return any(r['journal'] for r in impl if 'journal' in r)
 
 
